@@ -202,8 +202,9 @@ UNITS["C13"] = [
          kind="obligation", tiers=["quick", "thorough"], timeout_s=600)
     for fn in _LEXFNS
 ] + [
-    dict(obligation="verus_lexer_lemma_tiling", engine="verus", verus_fn="lemma_tiling", crate="fea-rs", src="fea-rs/src/parse/lexer.rs", functions=[],
-         klass="complete", domain="all n, all length sequences", pre="every lexeme length >= 1; start + sum(lens) == n", post="at most n - start lexemes (a driver loop over next_token's contract terminates having consumed exactly the input)",
+    dict(obligation="verus_lexer_driver_consumes_everything", engine="verus", verus_fn="fv_driver_consumes_everything", crate="fea-rs", src="fea-rs/src/parse/lexer.rs", functions=[],
+         klass="complete", domain="every input (unbounded)", pre="|input| <= 2^63-16",
+         post="a driver loop that calls next_token until Eof (a client of the contract only) terminates with lexeme lengths all >= 1 that sum to |input|, at most |input| lexemes, every boundary a char boundary for UTF-8-shaped input: the lexer half of 'token texts concatenated are exactly the input'",
          kind="obligation", tiers=["quick", "thorough"], timeout_s=600),
     _k("c13_lexer_contract_inputs_up_to_2_bytes", "fea-rs", "fea-rs/src/parse/lexer.rs", ["fea_rs::parse::lexer::Lexer::next_token (real, unextracted)"], "bounded",
        "every valid UTF-8 input of <= 2 bytes, first three tokens", "valid UTF-8, |input| <= 2", "lexer starts at byte 0; T1, T2, T3, T4 on each of the first three next_token calls; third lexeme is Eof", timeout_s=1200, companion=True, on_demand=True),
